@@ -27,6 +27,11 @@ CHECKS = {
         text="Theorems C19_exact_at_knots, C19_between_knots, C19_fills_outside, C19_early_exit_sound, C19_arraywise_columnwise, C19_numeric_eq_symbolic about an executable model of OptimizationProblem.interpolate and casadi interp1d for all knot vectors, values, query points, modes and fills; C19_merge_pointwise / C19_merge_operators / C19_merge_rejects_symmetric about a model of merge_bounds for all kinds and shapes. The models are run against the real methods (and the real CasADi interp1d) on generated inputs each run; disagreements are judged against a reference written from the property text.",
         note="Trusted: Coq kernel + vm_compute; harness generators and printers; binary64 rounding in numpy.interp is outside the exact model (linear mode between knots compared to 1e-9, everything else exactly on the float's rational value); NaN function values are not generated. No axioms. A genuine defect (int/float scalar mix rejected by an assertion) was repaired in /repo cfdffd6.",
         ref="DESIGN.md §5 C19"),
+    "C02": dict(
+        technique="Coq proof (order theory on extended rationals; monotonicity of the constraint store by induction over update sequences; algebra of the hard-constraint formulas) + correspondence of the Gallina models against update_bounds, both hard-constraint builders and the store update, plus real multi-priority solves",
+        text="C02_merge_* prove that both update_bounds variants stay within the enforced interval for all (possibly infinite, possibly inconsistent) bounds; C02_store_only_shrinks lifts this to every sequence of store updates; C02_hard_contains_solution / C02_hard_bounds_attainment / C02_minimize_retained prove that the constraint retained for a solved goal admits the achieved value and nothing worse than the recorded attainment beyond the configured relaxations, for every goal kind, nominal, option combination and epsilon. The models are compared with the code on generated intervals, goals, epsilons, options and store sequences (deterministic), and real IPOPT runs of all variants compare the stores after each priority with the model and re-evaluate every earlier goal on every later solution.",
+        note="Trusted: Coq kernel + vm_compute; harness; IPOPT for the sampled end-to-end runs (solver regime, tolerance 1e-5; keep-soft/single-pass variants are judged on the priority objective as the property words it); vector goals (size>1) and the objective-constraint bookkeeping of keep_soft/single pass are exercised but not modelled. No axioms. Genuine defect repaired in /repo e4c1064 (enforce=\"self\").",
+        ref="DESIGN.md §5 C02"),
 }
 
 PENDING_REASON = "check not built yet (work in progress; see DESIGN.md §7 build order) — not claimed until its Coq model, theorems and correspondence check run clean on the unchanged tree"
